@@ -136,6 +136,13 @@ def _check(case):
         # log-variables pass through log/exp inside the simulator: equal up to the last bits
         col.check(bool(np.allclose(a, b, rtol=1e-12, atol=0.0, equal_nan=True)), "measurement_touched", lambda: f"{nm}: output {a.tolist()} differs from the input {b.tolist()} on the span")
 
+    if spec["log"]:
+        # values that underflowed to zero (or a continuation built from them): the collapsed pseudo-solution in its
+        # final stage; x = 0 meets x - rhs = 0 exactly but is outside the domain of the equations in logs
+        for nm in names:
+            a_ = pO.arr(nm)
+            if not np.all(np.isfinite(a_)) or np.any(a_ <= 0):
+                return {"labels": ["collapsed_pseudo_solution"], "nontrivial": False}
     # ---- 1. residuals, frame by frame -----------------------------------------------------------------
     frames = info.get("frames", ())
     fdbs = info.get("frame_databoxes", ())
